@@ -532,6 +532,12 @@ func (t *wScreen) SetTitle(title string) {
 	js.Global().Call("setTitle", title)
 }
 
+// SetClipboard is not supported by the web terminal yet.
+func (t *wScreen) SetClipboard(data []byte) {}
+
+// GetClipboard is not supported by the web terminal yet.
+func (t *wScreen) GetClipboard() {}
+
 // WebKeyNames maps string names reported from HTML
 // (KeyboardEvent.key) to tcell accepted keys.
 var WebKeyNames = map[string]Key{
